@@ -12,6 +12,10 @@ from __future__ import annotations
 
 import itertools
 import json
+import sys
+
+if hasattr(sys, "set_int_max_str_digits"):
+    sys.set_int_max_str_digits(0)  # solver models of real variables can be rationals with thousands of digits
 import multiprocessing as mp
 import os
 import queue
